@@ -62,6 +62,11 @@ fn main() {
         keys::proof_matrix(&mut ctx, &s, &vks, &pks, all_pk);
         keys::commit_cases(&mut ctx, &s, commit_cols);
     }
+    for (i, (fp, seed)) in members.iter().enumerate() {
+        if i % 3 == 0 {
+            keys::v1_case(&mut ctx, fp, *seed, reps.min(2));
+        }
+    }
     let seed = ctx.seed;
     params::params_cases(&mut ctx, kmax, 4242 + seed);
     if !ctx.quick() {
